@@ -50,6 +50,9 @@ def auto_schedules(quick):
         sch.append([{"op": "Config", "ctr0": c0}, {"op": "Auto", "drop": [], "dup": []}])
         sch.append([{"op": "Config", "ctr0": c0}, {"op": "Auto", "drop": [2], "dup": [3]}])
         sch.append([{"op": "Config", "ctr0": c0}, {"op": "Auto", "drop": [1, 4], "dup": []}])
+    # the session under test is a PASE session (the reliability layer does not depend on the session kind)
+    for f in ({"drop": [], "dup": []}, {"drop": [1], "dup": []}, {"drop": [2], "dup": [3]}, {"drop": [3, 4], "dup": []}, {"drop": [], "dup": [1, 2]}, {"drop": [2, 5], "dup": [6]}):
+        sch.append([{"op": "Config", "mode": "pase"}, dict({"op": "Auto"}, **f)])
     return sch
 
 def handshake_stage(ck, quick):
@@ -163,6 +166,6 @@ def run(tier, seed, pid="C09", extra=()):
         ck.cov["id_allocation"]["alloc_events_validated"] = sum(1 for e in ev if e.get("ev") == "Alloc")
     if pid == "C15":
         handshake_stage(ck, quick)
-    ck.assumptions += ["planted CASE session (zero keys), one exchange, two request/response rounds, network latency 1 ms per delivery, virtual clock",
+    ck.assumptions += ["planted CASE session (and, for a handful of schedules, a PASE session; zero keys), one exchange, two request/response rounds, network latency 1 ms per delivery, virtual clock",
                        "a dropped datagram's counter is black-holed (all its retransmissions are lost), as in the model"]
     return ck.finish()
